@@ -70,3 +70,39 @@ Theorem C19_dominance_is_order_of_facet_values : forall W a b,
   dominates W a b = true <-> Pessimistic.vle (matvec W b) (matvec W a) = true.
 Proof. exact HV.dominates_facet_values. Qed.
 Print Assumptions C19_dominance_is_order_of_facet_values.
+
+(* the regenerated uncovered count / set of the eps-F1 score (Gen_extra.v), for any coverage predicate *)
+From Coq Require Import Permutation.
+From VOPy Require ExtraRefine.
+From VOPyGen Require Gen_extra.
+Theorem C19_uncovered_count_is_the_number_of_points_no_prediction_covers : forall cov pts hat,
+  (Gen_extra.gen_uncovered_size cov pts hat <= length pts)%nat /\
+  (Gen_extra.gen_uncovered_size cov pts hat = O <-> forall ip, In ip pts -> exists jp, In jp hat /\ cov ip jp = true) /\
+  (forall mu p ph i, In i (Gen_extra.gen_uncovered_set cov mu p ph) <-> In i p /\ forall j, In j ph -> cov (nth i mu []) (nth j mu []) = false) /\
+  (forall mu p ph, length (Gen_extra.gen_uncovered_set cov mu p ph) =
+                   Gen_extra.gen_uncovered_size cov (map (fun i => nth i mu []) p) (map (fun j => nth j mu []) ph)).
+Proof.
+  intros cov pts hat. split; [|split; [|split]].
+  - exact (ExtraRefine.gen_uncovered_size_le cov pts hat).
+  - exact (ExtraRefine.gen_uncovered_size_zero cov pts hat).
+  - exact (ExtraRefine.gen_uncovered_set_spec cov).
+  - exact (ExtraRefine.gen_uncovered_set_size cov).
+Qed.
+Print Assumptions C19_uncovered_count_is_the_number_of_points_no_prediction_covers.
+
+(* it depends on the predicted points only as a set (order, repetitions and tied values are irrelevant), can only fall when
+   predictions are added, and a predicted point may be dropped only if one that covers at least as much stays *)
+Theorem C19_uncovered_count_depends_on_the_predicted_set_only : forall cov pts hat,
+  (forall hat', Permutation hat hat' -> Gen_extra.gen_uncovered_size cov pts hat = Gen_extra.gen_uncovered_size cov pts hat') /\
+  (forall jp, In jp hat -> Gen_extra.gen_uncovered_size cov pts (jp :: hat) = Gen_extra.gen_uncovered_size cov pts hat) /\
+  (forall hat', incl hat hat' -> (Gen_extra.gen_uncovered_size cov pts hat' <= Gen_extra.gen_uncovered_size cov pts hat)%nat) /\
+  (forall jp kp, In kp hat -> (forall ip, cov ip jp = true -> cov ip kp = true) ->
+                 Gen_extra.gen_uncovered_size cov pts (jp :: hat) = Gen_extra.gen_uncovered_size cov pts hat).
+Proof.
+  intros cov pts hat. split; [|split; [|split]].
+  - intros hat' P. exact (ExtraRefine.gen_uncovered_size_hat_perm cov pts hat hat' P).
+  - intros jp H. exact (ExtraRefine.gen_uncovered_size_duplicate cov pts hat jp H).
+  - intros hat' H. exact (ExtraRefine.gen_uncovered_size_antitone cov pts hat hat' H).
+  - intros jp kp Hk Hd. exact (ExtraRefine.gen_uncovered_size_drop_dominated cov pts hat jp kp Hk Hd).
+Qed.
+Print Assumptions C19_uncovered_count_depends_on_the_predicted_set_only.
